@@ -18,7 +18,7 @@ cp evidence/$C.json build/evidence_$C.keep 2>/dev/null
 VERIF_REPO=$WT ./check $C --tier $T > build/seed_$S.log 2>&1; rc=$?
 cp build/evidence_$C.keep evidence/$C.json 2>/dev/null
 flock -u 8
-( flock 9; git checkout -q -- harness/go.mod ) 9>build/gobuild.lock
+true
 git -C /repo worktree remove --force $WT
 grep -E "^VIOLATION|^$C " build/seed_$S.log | head -4
 echo "SEED $S on $C: exit $rc"
